@@ -294,11 +294,34 @@ fn exec_corrupt_in_child(case: &Case) -> CaseResult {
     r
 }
 
+/// Whether (and at which call of the recovery, 1-based; 0 = not at all) a faulted run gets a second,
+/// transient fault: a function of the base run, the fault position and the mode, so that the
+/// enumeration, a narrowed case and a replay file agree.
+fn recovery_fault_for(run_seed: u64, at_call: u64, mode: crate::simfs::FaultMode) -> i64 {
+    let m = match mode {
+        crate::simfs::FaultMode::Transient => 1u64,
+        crate::simfs::FaultMode::Sticky => 2,
+        crate::simfs::FaultMode::PartialWrite => 3,
+    };
+    let mut r = Rng::new(crate::rng::mix2(crate::rng::mix2(run_seed, 0x2EC0), at_call * 4 + m));
+    if r.chance(1, 3) {
+        1 + r.below(60) as i64
+    } else {
+        0
+    }
+}
+
 /// C08: number the filesystem calls of the plan with a fault-free run, then re-execute the same
 /// plan and scheduler seed once per (position, mode) with that call failing.
 fn exec_iofault(case: &Case) -> CaseResult {
     use crate::simfs::{CallKind, FaultMode, FaultSpec};
-    if case.fault.is_some() {
+    if let Some(f) = &case.fault {
+        // (narrowed cases and replay files: the recovery-fault decision is a function of the case)
+        let mut derived = case.clone();
+        if case.params.get("recovery_fault_derive").copied().unwrap_or(0) != 0 && !case.params.contains_key("recovery_fault") {
+            derived.params.insert("recovery_fault".to_string(), recovery_fault_for(case.run_seed, f.at_call, f.mode));
+        }
+        let case = &derived;
         let mut r = run_case(case, crate::iofault::body);
         for f in r.findings.iter_mut() {
             f.fault = case.fault.clone();
@@ -315,7 +338,6 @@ fn exec_iofault(case: &Case) -> CaseResult {
     let n = sites.len();
     let max_points = case.params.get("max_points").copied().unwrap_or(40) as usize;
     let mut rng = Rng::new(crate::rng::mix2(case.run_seed, 0x10FA));
-    let mut rrng = Rng::new(crate::rng::mix2(case.run_seed, 0x2EC0));
     let mut positions: Vec<usize> = (0..n).collect();
     if n > max_points {
         // stratify: first occurrence(s) of every (kind, class) pair, then a uniform sample
@@ -348,9 +370,10 @@ fn exec_iofault(case: &Case) -> CaseResult {
         for mode in modes {
             let mut c = case.clone();
             c.fault = Some(FaultSpec { at_call: p as u64, mode, keep: rng.below(64) });
-            if rrng.chance(1, 3) {
-                // a second, transient fault at the k-th filesystem call of the recovery that follows
-                c.params.insert("recovery_fault".to_string(), 1 + rrng.below(60) as i64);
+            if case.params.get("recovery_fault_derive").copied().unwrap_or(0) != 0 {
+                // in a third of the cases a second, transient fault at the k-th filesystem call of
+                // the recovery that follows (0 = none)
+                c.params.insert("recovery_fault".to_string(), recovery_fault_for(case.run_seed, p as u64, mode));
             }
             let r = run_case(&c, crate::iofault::body);
             total.stats.absorb(&r.stats);
@@ -455,6 +478,7 @@ fn iofault_case(run_seed: u64, tier: Tier) -> Case {
     // boundary plans are about a handful of specific calls (the length query, the padding write, the
     // fragment headers): enumerate nearly all of their positions also in the quick tier
     params.insert("max_points".to_string(), if tier == Tier::Quick { if boundary { 160 } else { 30 } } else { 100_000 });
+    params.insert("recovery_fault_derive".to_string(), 1);
     Case { engine: Engine::IoFault, run_seed, plan, sched, schedule: None, fault: None, params, image: None, max_steps: Some(3_000_000), log_plan: None, lock_plan: None, corrupt: None }
 }
 
@@ -785,6 +809,12 @@ fn mixed(mut spec: CheckSpec, variants: Vec<(u32, Variant)>) -> CheckSpec {
     });
     spec.evals = Box::new(|r| r.stats.extra.get("crash_points_checked").copied().unwrap_or(1).max(1));
     spec.narrow = Some(Box::new(|case, f, _res| {
+        if case.engine == Engine::IoFault {
+            // the single faulted run that showed the finding (its own schedule gets recorded)
+            let mut c = case.clone();
+            c.fault = Some(f.fault.clone()?);
+            return Some(c);
+        }
         if case.engine != Engine::Crash {
             return None;
         }
